@@ -231,11 +231,37 @@ def spec_expand(defs, use):
 def run(rep, tier, rng):
     n = 6000 if tier == "quick" else 150000
     cases = []
+    e2e = []
     for i in range(n):
         d, u = M.gen_case(rng)
         cases.append(("m%d" % i, "expand", [d, u]))
-    impl = C.run_hx(cases)
+        if i < (2000 if tier == "quick" else 40000):
+            e2e.append(("q%d" % i, "prog", ["std", M.gen_case.quoted, u]))
+    impl = C.run_hx(cases + e2e)
     model = C.run_driver(cases)
+    # end to end: the rules with quoted templates, the use EVALUATED: the value is the instantiated template
+    checked = 0
+    for cid, _, f in e2e:
+        r = impl.get(cid, [])
+        try:
+            sp = spec_expand(cases[int(cid[1:])][2][0], f[2])
+        except Exception:
+            sp = None
+        if sp is None or len(r) != 2 or r[0] != "N":
+            continue
+        if sp[0] == "D":
+            if "R:" in sp[1] or "q:" in sp[1]:
+                continue
+            want = "V " + sp[1].replace("#(", "#i(")
+        else:
+            want = "E syntax"
+        checked += 1
+        rep.count()
+        if not (r[1] == want or (want == "E syntax" and r[1].startswith("E syntax"))):
+            rep.violation({"what": "a macro use evaluated through the whole front end does not yield the first matching rule's template "
+                                   "filled in with the sub-forms AS WRITTEN (or is not rejected when no rule matches)",
+                           "definition": f[1], "use": f[2], "expected": want, "implementation": r[1]})
+    rep.extra["uses_evaluated_end_to_end"] = checked
     in_class = matched = errors = 0
     for cid, _, f in cases:
         rep.count()
